@@ -6,12 +6,19 @@ pub use self::file_number::{FileNumber, FileTracker};
 
 const FRAME_NUM_BYTES: usize = 1 << 15;
 
-#[cfg(not(test))]
+#[cfg(not(any(test, feature = "verif-hooks")))]
 const NUM_BLOCKS_PER_FILE: usize = 1 << 12;
 
-#[cfg(test)]
+#[cfg(all(test, not(feature = "verif-hooks")))]
 const NUM_BLOCKS_PER_FILE: usize = 4;
 
+#[cfg(feature = "verif-hooks")]
+const NUM_BLOCKS_PER_FILE: usize = crate::verif_hooks::blocks_per_file_from_env(option_env!(
+    "MRECORDLOG_VERIF_BLOCKS_PER_FILE"
+));
+
 const FILE_NUM_BYTES: usize = FRAME_NUM_BYTES * NUM_BLOCKS_PER_FILE;
+#[cfg(feature = "verif-hooks")]
+pub(crate) const VERIF_FILE_NUM_BYTES: usize = FILE_NUM_BYTES;
 #[cfg(test)]
 mod tests;
